@@ -100,6 +100,9 @@ func ovTar(layer []struct {
 			ents = append(ents, tarEntry{Name: spell(e.Path, spelling, true), Type: tar.TypeDir, Mode: 0755})
 		case "link":
 			ents = append(ents, tarEntry{Name: spell(e.Path, spelling, false), Type: tar.TypeSymlink, Mode: 0777, Linkname: ovMap("/e", nm)})
+		case "hl":
+			// a hard link names its target relative to the archive root, in the spelling of the entry names
+			ents = append(ents, tarEntry{Name: spell(e.Path, spelling, false), Type: tar.TypeLink, Mode: 0644, Linkname: spell(ovMap("/e", nm), spelling, false)})
 		case "wh":
 			w := path.Join(path.Dir(e.Path), ".wh."+path.Base(e.Path))
 			ents = append(ents, tarEntry{Name: spell(w, spelling, false), Type: tar.TypeReg, Mode: 0644})
